@@ -17,6 +17,18 @@ def Res.mapr {α β} (f : α → β) : Res α → Res β
 @[simp] theorem Res.mapr_panic {α β} (f : α → β) (w) : Res.mapr f (.panic w : Res α) = .panic w := rfl
 @[simp] theorem Res.mapr_oof {α β} (f : α → β) : Res.mapr f (.outOfFuel : Res α) = .outOfFuel := rfl
 
+@[simp] theorem Res.bind_pair_eta {α β} (r : Res (α × β)) :
+    (r >>= fun x => Res.ok (x.1, x.2)) = r := by cases r <;> rfl
+
+@[simp] theorem Res.match_pair_eta {α β} (r : Res (α × β)) :
+    (match r with
+      | Res.ok a => Res.ok (a.fst, a.snd)
+      | Res.panic w => Res.panic w
+      | Res.outOfFuel => Res.outOfFuel) = r := by cases r <;> rfl
+
+theorem Res.mapr_bind {α β γ} (f : β → γ) (r : Res α) (g : α → Res β) :
+    Res.mapr f (r >>= g) = r >>= fun x => Res.mapr f (g x) := by cases r <;> rfl
+
 namespace GoTie
 open Pico Pico.Dec Pico.Wire
 namespace D
@@ -50,6 +62,210 @@ theorem popState_eq (d : Dec) : GoSrc.Decoder.popState d = .ok (Dec.popState d) 
     have h0 : ¬ ((l.length : Int) + 1 = 0) := by omega
     have h1 : (l.length : Int) ≤ (l.length : Int) + 1 := by omega
     simp [h, Go.len, Go.index, Go.sliceTo, hlen, h0, h1]
+
+/-! ### Loop -/
+
+theorem loop1_eq {σ} (fn : DecM σ) (fuel : Nat) (d : Dec) (s : σ) :
+    GoSrc.Decoder.Loop.loop1 fn fuel d s = Dec.loopN fn fuel d s := by
+  induction fuel generalizing d s with
+  | zero => rfl
+  | succ n ih =>
+    unfold GoSrc.Decoder.Loop.loop1 Dec.loopN
+    simp only [bind, Res.bind]
+    cases h : fn d s with
+    | ok r =>
+      obtain ⟨d', s'⟩ := r
+      simp [fieldNumberIsValid_eq, pendingValid, Go.len, nextField_eq, ih, Int.natCast_inj]
+    | panic w => rfl
+    | outOfFuel => rfl
+
+
+theorem Loop_eq {σ} (fn : DecM σ) (d : Dec) (s : σ) :
+    GoSrc.Decoder.Loop fn d s = Dec.loop fn d s := by
+  unfold GoSrc.Decoder.Loop Dec.loop
+  simp only [nextField_eq, loop1_eq]
+  cases hi : d.init <;> simp
+
+theorem Message_eq {σ} (field : Int) (fn : DecM σ) (d : Dec) (s : σ) :
+    GoSrc.Decoder.Message field fn d s = Dec.message field fn d s := by
+  unfold GoSrc.Decoder.Message Dec.message
+  simp only [fail_eq, pushState_eq, Loop_eq, popState_eq, nextField_eq]
+  simp
+
+theorem PresentMessage_eq {σ} (field : Int) (fn : DecM σ) (d : Dec) (s : σ) :
+    GoSrc.Decoder.PresentMessage field fn d s = Dec.message field fn d s := by
+  unfold GoSrc.Decoder.PresentMessage Dec.message
+  simp only [fail_eq, pushState_eq, Loop_eq, popState_eq, nextField_eq]
+  simp
+
+theorem RepeatedMessage_loop1_eq {σ} (field : Int) (fn : DecM σ) (fuel : Nat) (d : Dec) (s : σ) :
+    Res.mapr Prod.snd (GoSrc.Decoder.RepeatedMessage.loop1 field fn fuel d s) = Dec.repeatedMessageN field fn fuel d s := by
+  induction fuel generalizing d s with
+  | zero => rfl
+  | succ n ih =>
+    unfold GoSrc.Decoder.RepeatedMessage.loop1 Dec.repeatedMessageN
+    simp only [fail_eq, pushState_eq, popState_eq, nextField_eq]
+    simp [apply_ite (Res.mapr Prod.snd), Res.mapr_bind, ih]
+
+theorem RepeatedMessage_eq {σ} (field : Int) (fn : DecM σ) (d : Dec) (s : σ) :
+    GoSrc.Decoder.RepeatedMessage field fn d s = Dec.repeatedMessage field fn d s := by
+  unfold GoSrc.Decoder.RepeatedMessage Dec.repeatedMessage
+  rw [← RepeatedMessage_loop1_eq]
+  cases h : GoSrc.Decoder.RepeatedMessage.loop1 field fn (d.cur.buffer.length + 2) d s with
+  | ok r => obtain ⟨o, d', s'⟩ := r; cases o <;> rfl
+  | panic w => rfl
+  | outOfFuel => rfl
+
+/-! RepeatedEnum -/
+def addPat : Int → List Nat → List Nat := fun v acc => acc ++ [Go.toU 32 v]
+
+theorem toU_wrapS_32 (x : Nat) : Go.toU 32 (Go.wrapS 32 (x : Int)) = x % 4294967296 := by
+  unfold Go.toU Go.wrapS
+  simp only [show (2:Int)^32 = 4294967296 from by decide, show (2:Int)^(32-1) = 2147483648 from by decide]
+  split <;> omega
+
+theorem packedEnum_shift (fuel : Nat) (p : Bytes) (a acc : List Nat) :
+    readRepeatedEnumN.packedEnum fuel p (a ++ acc)
+      = Res.mapr (fun r => (a ++ r.1, r.2)) (readRepeatedEnumN.packedEnum fuel p acc) := by
+  induction fuel generalizing p acc with
+  | zero => rfl
+  | succ n ih =>
+    unfold readRepeatedEnumN.packedEnum
+    simp only []
+    split
+    · rfl
+    · split
+      · rfl
+      · cases h : sliceFrom p (consumeVarint p).2 with
+        | ok rest => simp [← ih, List.append_assoc]
+        | panic w => rfl
+        | outOfFuel => rfl
+
+theorem RepeatedEnum_loop2_eq (field : Int) (fuel : Nat) (d : Dec) (packed : Bytes) (s : List Nat) :
+    Res.mapr (fun r => (r.1, r.2.1, r.2.2.2)) (GoSrc.Decoder.RepeatedEnum.loop2 field addPat fuel d packed s)
+      = Res.mapr (fun r => (if r.2 then some () else none,
+                            if r.2 then Dec.fail d field "unable to parse Varint" else d, r.1))
+          (readRepeatedEnumN.packedEnum fuel packed s) := by
+  induction fuel generalizing packed s with
+  | zero => rfl
+  | succ n ih =>
+    unfold GoSrc.Decoder.RepeatedEnum.loop2 readRepeatedEnumN.packedEnum
+    simp only [fail_eq, sliceFrom_eq, Go.len]
+    simp [apply_ite (Res.mapr _), Res.mapr_bind, ih, addPat, toU_wrapS_32]
+    by_cases hp : packed = []
+    · simp [hp]
+    · have : 0 < packed.length := List.length_pos_iff.mpr hp
+      simp [hp, this]
+
+theorem RepeatedEnum_loop1_eq (field : Int) (fuel : Nat) (d : Dec) (s : List Nat) :
+    Res.mapr Prod.snd (GoSrc.Decoder.RepeatedEnum.loop1 field addPat fuel d s)
+      = Dec.readRepeatedEnumN field fuel d s := by
+  induction fuel generalizing d s with
+  | zero => rfl
+  | succ n ih =>
+    unfold GoSrc.Decoder.RepeatedEnum.loop1 Dec.readRepeatedEnumN
+    simp only [fail_eq, nextField_eq]
+    simp [apply_ite (Res.mapr _), Res.mapr_bind, ih, addPat, toU_wrapS_32]
+    split
+    · split
+      · split
+        · rfl
+        · -- packed occurrence
+          have key := RepeatedEnum_loop2_eq field ((consumeBytes d.cur.buffer).1.length + 1) d (consumeBytes d.cur.buffer).1 s
+          have sh := packedEnum_shift ((consumeBytes d.cur.buffer).1.length + 1) (consumeBytes d.cur.buffer).1 s []
+          rw [List.append_nil] at sh
+          rw [sh] at key
+          cases hl : GoSrc.Decoder.RepeatedEnum.loop2 field addPat ((consumeBytes d.cur.buffer).1.length + 1) d (consumeBytes d.cur.buffer).1 s with
+          | ok x =>
+            rw [hl] at key
+            cases hp : readRepeatedEnumN.packedEnum ((consumeBytes d.cur.buffer).1.length + 1) (consumeBytes d.cur.buffer).1 [] with
+            | ok y =>
+              rw [hp] at key
+              simp only [Res.mapr_ok, Res.ok.injEq, Prod.mk.injEq] at key
+              obtain ⟨k1, k2, k3⟩ := key
+              obtain ⟨xs, bad⟩ := y
+              cases bad
+              · simp at k1 k2 k3
+                simp [k1, k2, k3, Res.mapr_bind, ih]
+              · simp at k1 k2 k3
+                simp [k1, k2, k3]
+            | panic w => rw [hp] at key; simp at key
+            | outOfFuel => rw [hp] at key; simp at key
+          | panic w =>
+            rw [hl] at key
+            cases hp : readRepeatedEnumN.packedEnum ((consumeBytes d.cur.buffer).1.length + 1) (consumeBytes d.cur.buffer).1 [] with
+            | ok y => rw [hp] at key; simp at key
+            | panic w' => rw [hp] at key; simp at key; simp [key]
+            | outOfFuel => rw [hp] at key; simp at key
+          | outOfFuel =>
+            rw [hl] at key
+            cases hp : readRepeatedEnumN.packedEnum ((consumeBytes d.cur.buffer).1.length + 1) (consumeBytes d.cur.buffer).1 [] with
+            | ok y => rw [hp] at key; simp at key
+            | panic w' => rw [hp] at key; simp at key
+            | outOfFuel => rfl
+      · rfl
+    · rfl
+
+theorem RepeatedEnum_eq (field : Int) (d : Dec) (s : List Nat) :
+    GoSrc.Decoder.RepeatedEnum field addPat d s = Dec.readRepeatedEnum field d s := by
+  unfold GoSrc.Decoder.RepeatedEnum Dec.readRepeatedEnum
+  rw [← RepeatedEnum_loop1_eq]
+  cases h : GoSrc.Decoder.RepeatedEnum.loop1 field addPat (d.cur.buffer.length + 2) d s with
+  | ok r => obtain ⟨o, d', s'⟩ := r; cases o <;> rfl
+  | panic w => rfl
+  | outOfFuel => rfl
+
+/-! UnrecognizedFields -/
+
+theorem mask_test (exclude : Nat) (pf : Int) (h0 : 0 ≤ pf) (h1 : pf < 64) :
+    ((exclude &&& ((1 <<< (Go.toU 64 pf)) % 18446744073709551616)) = 0) ↔ (exclude.testBit pf.toNat = false) := by
+  have hu : Go.toU 64 pf = pf.toNat := by
+    unfold Go.toU
+    simp only [show (2:Int)^64 = 18446744073709551616 from by decide]
+    omega
+  rw [hu, Nat.one_shiftLeft]
+  have hlt : 2 ^ pf.toNat < 18446744073709551616 := by
+    have : pf.toNat < 64 := by omega
+    calc 2 ^ pf.toNat < 2 ^ 64 := Nat.pow_lt_pow_right (by decide) this
+      _ = 18446744073709551616 := by decide
+  rw [Nat.mod_eq_of_lt hlt]
+  constructor
+  · intro h
+    have := congrArg (fun x => Nat.testBit x pf.toNat) h
+    simpa [Nat.testBit_and, Nat.testBit_two_pow_self] using this
+  · intro h
+    apply Nat.eq_of_testBit_eq
+    intro j
+    rw [Nat.testBit_and, Nat.testBit_two_pow]
+    by_cases hj : pf.toNat = j
+    · subst hj; simp [h]
+    · simp [hj]
+
+theorem UnrecognizedFields_loop1_eq (exclude : Nat) (fuel : Nat) (d : Dec) (out : Bytes) :
+    Res.mapr Prod.snd (GoSrc.Decoder.UnrecognizedFields.loop1 exclude fuel d out)
+      = Dec.unrecognizedFieldsN exclude fuel d out := by
+  induction fuel generalizing d out with
+  | zero => rfl
+  | succ n ih =>
+    unfold GoSrc.Decoder.UnrecognizedFields.loop1 Dec.unrecognizedFieldsN
+    simp only [fail_eq, nextField_eq, sliceTo_eq, Go.appendTag]
+    by_cases h0 : 0 ≤ d.cur.pendingField
+    · by_cases h1 : d.cur.pendingField < 64
+      · have hm := mask_test exclude d.cur.pendingField h0 h1
+        have h64 : ¬ d.cur.pendingField ≥ 64 := by omega
+        simp [h0, h64, hm, apply_ite (Res.mapr _), Res.mapr_bind, ih]
+      · have h64 : d.cur.pendingField ≥ 64 := by omega
+        simp [h0, h64, apply_ite (Res.mapr _), Res.mapr_bind, ih]
+    · simp [h0]
+
+theorem UnrecognizedFields_eq (exclude : Nat) (d : Dec) (out : Bytes) :
+    GoSrc.Decoder.UnrecognizedFields exclude d out = Dec.unrecognizedFields exclude d out := by
+  unfold GoSrc.Decoder.UnrecognizedFields Dec.unrecognizedFields
+  rw [← UnrecognizedFields_loop1_eq]
+  cases h : GoSrc.Decoder.UnrecognizedFields.loop1 exclude (d.cur.buffer.length + 2) d out with
+  | ok r => obtain ⟨o, d', s'⟩ := r; cases o <;> rfl
+  | panic w => rfl
+  | outOfFuel => rfl
 
 end D
 end GoTie
